@@ -110,7 +110,7 @@ Section StepFacts.
   Hypothesis yload_wf : forall text v, yload text = Ok v -> wf v = true.
 
   Definition usable (k : call) (it : item) : Prop := item_ok V C H yload (k_match k) (k_pv k) it.
-  Definition spec_of_call (k : call) : res dict := spec_result V C (k_render k) yload (k_match k) (k_tree k).
+  Definition spec_of_call (k : call) : res dict := spec_result V C H (k_render k) yload (k_match k) (k_tree k).
 
   Definition step_data (r : res (dict * str)) : res dict := match r with Ok (d, _) => Ok d | Err e => Err e end.
 
@@ -120,7 +120,7 @@ Section StepFacts.
     (forall it, In (k_sys k, it) st -> usable k it) ->
     step_data (snd (get_data_step V C H yload cap st k)) = spec_of_call k.
   Proof.
-    intros Hus. unfold get_data_step.
+    intros Hus. unfold get_data_step, step_with.
     destruct (cache_get cap (k_sys k) st) as [old st1] eqn:Eg.
     assert (Ho : usable k (match old with Some it => it | None => empty_item end)).
     { destruct old as [it|]; [|apply item_ok_empty]. apply Hus.
@@ -136,7 +136,7 @@ Section StepFacts.
   Lemma null_cache_fresh (st : lru item) (k : call) :
     get_data_step V C H yload 0 st k = (st, fresh_result V C H yload k).
   Proof.
-    unfold get_data_step, fresh_result. cbn [cache_get lru_set].
+    unfold get_data_step, step_with, fresh_result. cbn [cache_get lru_set].
     destruct (compile_call V C H yload k empty_item) as [[[d v] [new|]]|e]; reflexivity.
   Qed.
 
